@@ -41,6 +41,22 @@ fn edge(e: &SExp) -> ThrottleEdge {
   }
 }
 
+/// A cloneable collection that reports every `into_iter()` to a counter (source `iterl`).
+#[derive(Clone)]
+pub struct LazyIterable<F> {
+  vs: Vec<Val>,
+  cc: F,
+}
+
+impl<F: Fn()> IntoIterator for LazyIterable<F> {
+  type Item = Val;
+  type IntoIter = std::vec::IntoIter<Val>;
+  fn into_iter(self) -> Self::IntoIter {
+    (self.cc)();
+    self.vs.into_iter()
+  }
+}
+
 fn pair(a: Val, b: Val) -> Val {
   Val::Pair(Box::new(a), Box::new(b))
 }
@@ -307,6 +323,12 @@ macro_rules! impl_build {
         "iter" => {
           let vs: Vec<Val> = xs[1..].iter().map(Val::parse).collect();
           observable::from_iter(vs).on_error_map(widen).box_it()
+        }
+        "iterl" => {
+          // from_iter over a collection whose `into_iter()` is itself observable (counted as a closure
+          // call): it must run once per subscription and never while the pipeline is built
+          let vs: Vec<Val> = xs[1..].iter().map(Val::parse).collect();
+          observable::from_iter(LazyIterable { vs, cc: ctx.call_counter() }).on_error_map(widen).box_it()
         }
         "iterc" => {
           // from_iter over a lazy iterator that counts every item pulled from it
